@@ -37,12 +37,13 @@ type PSpec struct {
 	StartErr      []int        `json:"start_err,omitempty"`
 	BadDir        bool         `json:"bad_dir,omitempty"`
 	ReadyLine     string       `json:"ready_line,omitempty"`
-	Probe         bool         `json:"probe,omitempty"`      // readiness http probe against the harness endpoint
-	ProbeFail     int          `json:"probe_fail,omitempty"` // failure_threshold
+	Probe         bool         `json:"probe,omitempty"`       // readiness http probe against the harness endpoint
+	ProbeFail     int          `json:"probe_fail,omitempty"`  // failure_threshold
+	ProbeDelay    int          `json:"probe_delay,omitempty"` // initial_delay_seconds
 	Liveness      bool         `json:"liveness,omitempty"`
-	LiveFail      int          `json:"live_fail,omitempty"`   // liveness failure_threshold
-	ProbeSeq      []int        `json:"probe_seq,omitempty"`   // scripted probe outcomes (1 ok, 0 fail), then the switch value
-	StopCmd       string       `json:"stop_cmd,omitempty"`    // shutdown.command
+	LiveFail      int          `json:"live_fail,omitempty"` // liveness failure_threshold
+	ProbeSeq      []int        `json:"probe_seq,omitempty"` // scripted probe outcomes (1 ok, 0 fail), then the switch value
+	StopCmd       string       `json:"stop_cmd,omitempty"`  // shutdown.command
 	Disabled      bool         `json:"disabled,omitempty"`
 	Daemon        bool         `json:"daemon,omitempty"`
 	StopTimeout   int          `json:"stop_timeout,omitempty"`
@@ -220,6 +221,9 @@ func BuildYAML(s *LifeSpec, worldID int, probePort int) string {
 				ft = 3
 			}
 			fmt.Fprintf(&b, "    readiness_probe:\n      http_get:\n        host: 127.0.0.1\n        port: %d\n        path: /%s\n      period_seconds: 1\n      timeout_seconds: 1\n      failure_threshold: %d\n", probePort, p.Name, ft)
+			if p.ProbeDelay > 0 {
+				fmt.Fprintf(&b, "      initial_delay_seconds: %d\n", p.ProbeDelay)
+			}
 		}
 		if p.Liveness {
 			lf := p.LiveFail
